@@ -28,7 +28,7 @@ N(f)     == Len(f.cells)
 (* argument menus                                                             *)
 EdgeMenu == {<<0, 1, 2, 3, 4>>, <<0, 2, 4>>, <<1, 3>>, <<0, 1, 3>>, <<2, 5>>, <<-1, 0>>}
 LinMenu  == {<<2, 0, 4>>, <<4, 0, 4>>, <<1, 1, 3>>, <<3, 0, 3>>}             \* <<bins, lo, hi>>
-BinsMenu == {<<1>>, <<0, 2>>, <<1, 2, 3>>, <<0, 1, 1, 3>>, <<3, 1>>, <<2, 2, 0>>, <<>>}
+BinsMenu == {<<1>>, <<0, 2>>, <<1, 2, 3>>, <<0, 1, 1, 3>>, <<3, 1>>, <<2, 2, 0>>, <<3, 2, 0>>, <<>>}
 VMenu    == {[shape |-> <<6>>, cells |-> <<-1, 0, 1, 2, 3, 4>>], [shape |-> <<2, 3>>, cells |-> <<3, 0, 2, 4, 1, -1>>],
              [shape |-> <<2>>, cells |-> <<NaN, 1>>], [shape |-> <<0>>, cells |-> <<>>]}
 TestMenu == {[shape |-> <<0>>, cells |-> <<>>], [shape |-> <<1>>, cells |-> <<0>>], [shape |-> <<2>>, cells |-> <<1, 3>>],
@@ -106,7 +106,20 @@ ZeroAt(sh, d) == IF sh = <<>> THEN {<<>>}
 ZeroChunkings(sh) == UNION {ZeroAt(sh, d) : d \in DOMAIN sh}
 ChunkingsOf(sh) == NDChunkings(sh) \cup ZeroChunkings(sh)
 
+(* Strata the harness never samples out (field `must` of the exported result):
+   - searchsorted with the one-dimensional integer needles: the positions p such that the sorted
+     array holds the same value at p and p + 1 - a run of equal values that a chunk border after
+     position p cuts in two; the harness always runs the case under every chunking that has such a
+     border, for side left and right (both are cases of their own);
+   - digitize over bins that decrease somewhere: always run (every chunking in the thorough tier),
+     for right = FALSE and TRUE.                                                                 *)
+RunBorders(c) == LET a == SortSeq(c.cells, Le) IN {p \in 1..(Len(a) - 1) : a[p] = a[p + 1] /\ a[p] # NaN}
+Must(c) == IF c.op = "searchsorted" /\ c.vshape = <<6>> THEN SetToSeq(RunBorders(c))
+           ELSE IF c.op = "digitize" /\ Decreasing(c.bins) /\ ~Increasing(c.bins) THEN <<1>>
+           ELSE <<>>
+
 Expected(c) == IF c.op = "chunkings" THEN [err |-> FALSE, outs |-> <<>>, all |-> SetToSeq(ChunkingsOf(c.shape))]
+               ELSE IF c.op \in {"searchsorted", "digitize"} THEN Res(c) @@ [must |-> Must(c)]
                ELSE Res(c)
 
 NotYet == [err |-> TRUE, outs |-> <<>>]
@@ -212,6 +225,11 @@ CompressOK == Good("compress") =>
    /\ Len(Out(1).cells) = Size(Out(1).shape)
    /\ \A j \in DOMAIN Out(1).cells : Out(1).cells[j] \in 1..Size(kase.shape)
    /\ \A j \in 1..(Len(Out(1).cells) - 1) : kase.axis = None => Out(1).cells[j] < Out(1).cells[j + 1]
+
+\* the strata are not empty: every run of equal values is reported, decreasing bins are recognised
+StrataOK == /\ Good("searchsorted") /\ kase.vshape = <<6>> =>
+                 (xpd.must # <<>>) = (\E p \in DOMAIN Cells : \E q \in DOMAIN Cells : p # q /\ Cells[p] = Cells[q] /\ Cells[p] # NaN)
+            /\ Good("digitize") => (xpd.must # <<>>) = (\E j \in 1..(Len(kase.bins) - 1) : kase.bins[j] > kase.bins[j + 1])
 
 ChunkingsValid == (fin /\ kase.op = "chunkings") => \A j \in DOMAIN xpd.all : ValidChunks(kase.shape, xpd.all[j])
 =============================================================================
